@@ -1051,10 +1051,10 @@ pub fn check_c08(l: &Ledger) -> Vec<Violation> {
                 // them; for messages damaged in flight only the safety rules apply (a damaged challenge may
                 // carry an empty realm, a nonce that is no longer a quoted-string, ...)
                 // the same holds for what a hostile server personality builds on purpose (over-long or non-UTF-8
-                // strings, reason phrases beyond the limit): a message the library's decoder refuses is rejected at
-                // decode, before any credential processing -- that is C03's subject; bounded liveness (fresh probe)
-                // guards against a decoder that refuses what it should take
-                let corrupted = !fault.is_empty() || !crate::libtap::decodes(bytes);
+                // strings, reason phrases beyond the limit): the world marks those replies (`srv-hostile`) in the
+                // ledger's fault field. Replies of every other personality must be decodable: a decoder that
+                // refuses one of them shows up here as a missing Retry / delivery
+                let corrupted = !fault.is_empty();
                 if ctx.map_or(false, |c| c.exotic_realm()) {
                     continue;
                 }
